@@ -596,7 +596,7 @@ func (p *Prog) forwardsTo(fn *ssa.Function) *ssa.Function {
 		// nothing but loads and the call
 		for _, in := range body.Instrs[:len(body.Instrs)-1] {
 			switch in.(type) {
-			case *ssa.FieldAddr, *ssa.UnOp, *ssa.Field, *ssa.DebugRef, *ssa.Alloc, *ssa.Store:
+			case *ssa.FieldAddr, *ssa.UnOp, *ssa.Field, *ssa.DebugRef, *ssa.Alloc, *ssa.Store, *ssa.ChangeType:
 			case *ssa.Call:
 				if in != ssa.Instruction(call) {
 					return fn
